@@ -46,10 +46,21 @@ type op struct {
 	path   []string
 	z      int64
 	args   []int64
-	tmp    string // fresh variable of the rhs routes / name of the wrapper function (not part of the model input)
-	param  string // 'v': the calling function's parameter ...
-	argsym string // ... bound to the value of this global
+	tmp    string   // fresh variable of the rhs routes / name of the wrapper function (not part of the model input)
+	param  string   // 'v': the calling function's parameter ...
+	argsym string   // ... bound to the value of this global
+	wname  string   // 'v': name of the calling function ("" = fresh name); may equal the callee's own name
+	src2   []string // 'f': source path of {path = src2}
 }
+
+func (o op) wrapper() string {
+	if o.wname != "" {
+		return o.wname
+	}
+	return "wr" + o.tmp
+}
+
+func dZ() *decl { return &decl{kind: 'Z'} }
 
 var tmpCounter int
 
@@ -70,7 +81,7 @@ func names(b *strings.Builder, p []string) {
 
 func (bd body) enc(b *strings.Builder) {
 	switch bd.kind {
-	case 'G', 'S':
+	case 'G', 'S', 'K':
 		fmt.Fprintf(b, " %c %s", bd.kind, bd.name)
 	case 'D', 'W':
 		fmt.Fprintf(b, " %c", bd.kind)
@@ -90,6 +101,8 @@ func (bd body) src(params []string) string {
 		return bd.name
 	case 'S':
 		return "(set " + bd.name + " " + params[0] + ")"
+	case 'K':
+		return "(set " + bd.name + " nil)"
 	case 'W':
 		return "(set " + strings.Join(bd.path, ".") + " " + params[0] + ")"
 	case 'C':
@@ -125,6 +138,8 @@ func (d *decl) enc(b *strings.Builder) {
 	case 'R':
 		b.WriteString(" R")
 		names(b, d.path)
+	case 'Z':
+		b.WriteString(" Z")
 	}
 }
 
@@ -146,6 +161,8 @@ func (d *decl) expr() string {
 		return "(package \"" + d.pname + "\" { " + strings.Join(parts, "; ") + " })"
 	case 'R':
 		return strings.Join(d.path, ".")
+	case 'Z':
+		return "nil"
 	}
 	panic("expr of function")
 }
@@ -178,7 +195,7 @@ func (o op) enc(b *strings.Builder) {
 		fmt.Fprintf(b, " %d", o.z)
 	case 'c', 'v':
 		if o.kind == 'v' {
-			b.WriteString(" v " + o.param + " " + o.argsym)
+			b.WriteString(" v " + o.wrapper() + " " + o.param + " " + o.argsym)
 		} else {
 			b.WriteString(" c")
 		}
@@ -187,6 +204,10 @@ func (o op) enc(b *strings.Builder) {
 		for _, a := range o.args {
 			fmt.Fprintf(b, " %d", a)
 		}
+	case 'f':
+		b.WriteString(" f")
+		names(b, o.path)
+		names(b, o.src2)
 	}
 }
 
@@ -228,7 +249,19 @@ func (o op) src() []string {
 		for _, a := range o.args {
 			s += fmt.Sprintf(" %d", a)
 		}
-		return []string{"(defn wr" + o.tmp + " [" + o.param + "] " + s + "))", "(wr" + o.tmp + " " + o.argsym + ")"}
+		return []string{"(defn " + o.wrapper() + " [" + o.param + "] " + s + "))", "(" + o.wrapper() + " " + o.argsym + ")"}
+	case 'f':
+		q := strings.Join(o.src2, ".")
+		switch o.route {
+		case "from-infix":
+			return []string{"{" + p + " = " + q + "}"}
+		case "from-infixdef":
+			return []string{"{" + p + " := " + q + "}"}
+		case "from-set":
+			return []string{"(set " + p + " " + q + ")"}
+		case "from-prefix":
+			return []string{"(= " + p + " " + q + ")"}
+		}
 	}
 	panic("bad op route " + o.route)
 }
@@ -304,6 +337,9 @@ func evalOp(env *zygo.Zlisp, o op) string {
 		case lib.OutBudget:
 			return "BUDGET"
 		}
+	}
+	if o.kind == 'f' {
+		return "SET" // the expression's own value is the unresolved symbol; the follow-up reads observe the effect
 	}
 	return render(env, last.Val, 0)
 }
@@ -383,6 +419,10 @@ func firstRunes(w *world, ops []op, set map[rune]bool) {
 		if o.kind == 'v' {
 			add(o.param)
 			add(o.argsym)
+			add(o.wrapper())
+		}
+		for _, p := range o.src2 {
+			add(p)
 		}
 	}
 }
@@ -487,6 +527,7 @@ var clsName = []string{"U", "l", "_"}
 var intN = []string{"Vi", "vi", "_vi"}
 var hashN = []string{"Hh", "hh", "_hh"}
 var pkgN = []string{"Pp", "pp", "_pp"}
+var nilN = []string{"Nn", "nn", "_nn"}
 
 func sysHash() *decl {
 	return dH(m("A", dI(1)), m("b", dI(2)), m("_c", dI(3)),
@@ -499,6 +540,29 @@ func sysPkg(level, depth int, pname string, lean bool) *decl {
 		ms = append(ms, m(intN[c], dI(int64(level*100+c+10))))
 	}
 	ms = append(ms, m(fmt.Sprintf("X%d", level), dI(int64(level*100+50))), m(fmt.Sprintf("x%d", level), dI(int64(level*100+51))))
+	// members whose current value is nil, their inside readers, functions that set members back to nil
+	for c := 0; c < 3; c++ {
+		ms = append(ms, m(nilN[c], dZ()))
+	}
+	ms = append(ms,
+		m("GetNilLo", dF(nil, body{kind: 'G', name: "nn"})),
+		m("ClearLo", dF(nil, body{kind: 'K', name: "vi"})))
+	if !lean { // (every closure creation costs the interpreter time proportional to the world's size)
+		ms = append(ms,
+			m("GetNilUp", dF(nil, body{kind: 'G', name: "Nn"})),
+			m("GetNilNl", dF(nil, body{kind: 'G', name: "_nn"})),
+			m("ClearUp", dF(nil, body{kind: 'K', name: "Vi"})))
+	}
+	if level < depth-1 {
+		// facades that carry the name of the member they call (tail position, arity fits)
+		ms = append(ms,
+			m("SetLo2", dF([]string{"v"}, body{kind: 'C', path: []string{"Pp", "SetLo2"}, cargs: []int64{66}})),
+			m("GetLo2", dF(nil, body{kind: 'C', path: []string{"pp", "GetLo2"}})))
+	} else {
+		ms = append(ms,
+			m("SetLo2", dF([]string{"v"}, body{kind: 'S', name: "vi"})),
+			m("GetLo2", dF(nil, body{kind: 'G', name: "vi"})))
+	}
 	for c := 0; c < 3; c++ {
 		if lean {
 			ms = append(ms, m(hashN[c], dH(m("A", dI(1)), m("b", dI(2)), m("N", dH(m("D", dI(4)), m("e", dI(5)))))))
@@ -565,6 +629,7 @@ func sysWorld(depth int, lean bool) *world {
 
 var getRoutes = []string{"rhsdef", "rhsinfix", "let", "plus", "type"}
 var setRoutes = []string{"infix", "prefix", "set"}
+var fromRoutes = []string{"from-infix", "from-set", "from-prefix", "from-infixdef"}
 
 type target struct {
 	path  []string
@@ -583,7 +648,7 @@ func sysTargets(level, depth int, prefix []string, lean bool) []target {
 	pk := sysPkg(level, depth, "k", lean)
 	for _, mem := range pk.kvs {
 		switch mem.d.kind {
-		case 'I':
+		case 'I', 'Z':
 			add('I', nil, mem.name)
 		case 'F':
 			add('F', mem.d, mem.name)
@@ -641,7 +706,7 @@ func systematic(out *lib.Out, depth int, rng *lib.Rng, setFraction int, reads bo
 			for _, r := range getRoutes {
 				runCase(out, w, env, []op{{kind: 'g', route: r, path: p}}, "sys:get", "kind:"+string(t.kind), "root:"+strings.Join(root, "."))
 			}
-			if t.kind == 'F' && t.fn.body.kind != 'S' {
+			if t.kind == 'F' && (t.fn.body.kind == 'G' || t.fn.body.kind == 'D') {
 				var args []int64
 				for range t.fn.params {
 					args = append(args, 7)
@@ -677,15 +742,29 @@ func systematic(out *lib.Out, depth int, rng *lib.Rng, setFraction int, reads bo
 			p := withRoot(root, t.path)
 			pkgPath := p[:len(p)-1]
 			follow := []op{{kind: 'g', route: "let", path: p}}
-			if t.kind == 'I' && (t.path[len(t.path)-1] == "vi" || t.path[len(t.path)-1] == "Vi" || t.path[len(t.path)-1] == "_vi") {
-				getter := map[string]string{"vi": "GetLo", "Vi": "getUp", "_vi": "GetNl"}[t.path[len(t.path)-1]]
+			if getter := map[string]string{"vi": "GetLo", "Vi": "getUp", "_vi": "GetNl", "Nn": "GetNilLo", "nn": "GetNilLo", "_nn": "GetNilLo"}[t.path[len(t.path)-1]]; t.kind == 'I' && getter != "" {
 				follow = append(follow, op{kind: 'c', route: "call", path: append(append([]string{}, pkgPath...), getter)})
 				follow = append(follow, op{kind: 'c', route: "call", path: withRoot([]string{"root"}, append(append([]string{}, t.path[:len(t.path)-1]...), getter))})
 			}
-			if t.kind == 'F' && t.fn.body.kind == 'S' {
-				ops := []op{{kind: 'c', route: "call", path: p, args: []int64{77}}}
+			if t.kind == 'F' && (t.fn.body.kind == 'S' || t.fn.body.kind == 'K' || t.fn.body.kind == 'C') {
+				var args []int64
+				for range t.fn.params {
+					args = append(args, 77)
+				}
+				first := op{kind: 'c', route: "call", path: p, args: args}
+				if len(args) == 1 && (k+ri)%2 == 0 {
+					// the call is made, in tail position, by a global function of the SAME name as the member
+					first = op{kind: 'v', route: "call-via-samename", path: p, args: args, param: "zz9p", argsym: "G9", wname: p[len(p)-1]}
+				}
+				ops := []op{first}
 				for _, g := range []string{"GetLo", "getUp", "GetNl", "GetOut"} {
 					ops = append(ops, op{kind: 'c', route: "call", path: append(append([]string{}, pkgPath...), g)})
+				}
+				// after a member was set back to nil it is still private from outside
+				ops = append(ops, op{kind: 'g', route: "let", path: append(append([]string{}, pkgPath...), "vi")},
+					op{kind: 'g', route: "type", path: append(append([]string{}, pkgPath...), "Vi")})
+				if level := len(t.path); level >= 1 && t.fn.body.kind == 'C' {
+					ops = append(ops, op{kind: 'c', route: "call", path: append(append([]string{}, pkgPath...), t.fn.body.path[0], "GetLo")})
 				}
 				runCase(out, w, nil, ops, "sys:setter-call", "root:"+strings.Join(root, "."))
 				continue
@@ -693,6 +772,36 @@ func systematic(out *lib.Out, depth int, rng *lib.Rng, setFraction int, reads bo
 			r := setRoutes[(k+ri)%len(setRoutes)]
 			ops := append([]op{{kind: 's', route: r, path: p, z: 4242}}, follow...)
 			runCase(out, w, nil, ops, "sys:set", "kind:"+string(t.kind), "root:"+strings.Join(root, "."))
+		}
+	}
+}
+
+// ---------- assignments whose right-hand side is itself a dot path ----------
+// {T = S}, {T := S}, (set T S), (= T S) with T and S dot paths: S must be readable (a private S is
+// refused and T keeps its value); then the VALUE of S is stored (never the symbol).
+func assignFrom(out *lib.Out, rng *lib.Rng, all bool) {
+	w := sysWorld(2, true)
+	targets := [][]string{{"root", "Vi"}, {"root", "vi"}, {"root", "Hh", "A"}, {"root", "hh", "A"}, {"root", "pp", "Vi"},
+		{"root", "Nn"}, {"root", "nn"}, {"root", "Pp", "Hh", "N", "D"}, {"al", "X0"}, {"hq", "P", "Vi"}}
+	sources := [][]string{{"root", "vi"}, {"root", "Vi"}, {"root", "X0"}, {"root", "pp", "vi"}, {"root", "Pp", "_vi"}, {"root", "Hh", "b"},
+		{"root", "hh", "A"}, {"root", "Nn"}, {"root", "nn"}, {"root", "pp"}, {"root", "Hh"}, {"root", "_hh"}, {"root", "GetLo"}, {"root", "getUp"},
+		{"G9"}, {"root", "zz"}, {"al2", "vi"}, {"al2", "Vi"}, {"hq", "N", "P", "pp", "x1"}, {"hq", "N", "P", "pp", "X1"}}
+	routes := []string{"from-infix", "from-set", "from-prefix", "from-infixdef"}
+	k := 0
+	for ti, t := range targets {
+		for si, sp := range sources {
+			k++
+			if !all && (ti+si+int(rng.Intn(2)))%3 != 0 {
+				continue
+			}
+			r := routes[k%len(routes)]
+			ops := []op{{kind: 'f', route: r, path: t, src2: sp},
+				{kind: 'g', route: "let", path: t},
+				{kind: 'g', route: "rhsdef", path: sp}}
+			if getter := map[string]string{"vi": "GetLo", "Vi": "getUp", "nn": "GetNilLo"}[t[len(t)-1]]; getter != "" {
+				ops = append(ops, op{kind: 'c', route: "call", path: append(append([]string{}, t[:len(t)-1]...), getter)})
+			}
+			runCase(out, w, nil, ops, "assign-from", "route:"+r)
 		}
 	}
 }
@@ -723,11 +832,12 @@ func collisions(out *lib.Out, rng *lib.Rng, all bool) {
 					m("SetB", dF([]string{"v"}, body{kind: 'W', path: []string{hd, "B"}})),
 					m("GetB", dF(nil, body{kind: 'D', path: []string{hd, "B"}})),
 					m("GetLevel", dF(nil, body{kind: 'D', path: []string{in, "Level"}})),
-					m("GetLow", dF(nil, body{kind: 'D', path: []string{in, "low"}})),
+					m("ReadLow", dF(nil, body{kind: 'D', path: []string{in, "low"}})),
 					m("SetLevel", dF([]string{"v"}, body{kind: 'W', path: []string{in, "Level"}})),
 					m("SetLow", dF([]string{"v"}, body{kind: 'W', path: []string{in, "low"}})),
 					m("DoBump", dF(nil, body{kind: 'C', path: []string{in, "Bump"}, cargs: []int64{31}})),
-					m("CallLow", dF(nil, body{kind: 'C', path: []string{in, "GetLow"}})),
+					m("GetLow", dF(nil, body{kind: 'C', path: []string{in, "GetLow"}})),
+					m("Bump", dF([]string{"v"}, body{kind: 'C', path: []string{in, "Bump"}, cargs: []int64{32}})),
 				)
 				// the outsider's look-alikes
 				oh := dH(m("a", dI(91)), m("B", dI(92)), m("n", dH(m("D", dI(93)))))
@@ -745,17 +855,21 @@ func collisions(out *lib.Out, rng *lib.Rng, all bool) {
 				}
 				call := func(fn string, param, argsym string, args ...int64) op {
 					if via {
-						return op{kind: 'v', route: "call-via", path: []string{"pk", fn}, args: args, param: param, argsym: argsym}
+						o := op{kind: 'v', route: "call-via", path: []string{"pk", fn}, args: args, param: param, argsym: argsym}
+						if len(args) == 1 {
+							o.wname, o.route = fn, "call-via-samename" // the caller carries the member's own name
+						}
+						return o
 					}
 					return op{kind: 'c', route: "call", path: []string{"pk", fn}, args: args}
 				}
 				seqs := [][]op{
 					{call("GetA", hd, "oh"), call("GetD", hd, "oh"), call("SetB", hd, "oh", 41), call("GetB", hd, "oh"),
 						{kind: 'g', route: "let", path: []string{"oh", "B"}}, {kind: 'g', route: "rhsdef", path: []string{"oh"}}},
-					{call("GetLevel", in, "opk"), call("GetLow", in, "opk"), call("SetLevel", in, "opk", 42), call("GetLevel", in, "opk"),
+					{call("GetLevel", in, "opk"), call("ReadLow", in, "opk"), call("SetLevel", in, "opk", 42), call("GetLevel", in, "opk"),
 						call("SetLow", in, "opk", 43), {kind: 'g', route: "let", path: []string{"opk", "Level"}},
 						{kind: 'c', route: "call", path: []string{"opk", "GetLow"}}},
-					{call("DoBump", in, "opk"), call("GetLevel", in, "opk"), call("CallLow", in, "opk"),
+					{call("DoBump", in, "opk"), call("GetLevel", in, "opk"), call("GetLow", in, "opk"), call("Bump", in, "opk", 5), call("GetLevel", in, "opk"),
 						{kind: 'g', route: "let", path: []string{"opk", "Level"}}, {kind: 'g', route: "let", path: []string{"pk", in, "Level"}}},
 				}
 				for _, ops := range seqs {
@@ -828,7 +942,11 @@ func randPkg(rng *lib.Rng, level, maxDepth int, visible []string, globals []stri
 		vis := append(append([]string{}, visible...), own...)
 		switch x := rng.Intn(10); {
 		case x < 3:
-			ms = append(ms, m(k, dI(int64(rng.Intn(900)+100))))
+			if rng.Intn(4) == 0 {
+				ms = append(ms, m(k, dZ()))
+			} else {
+				ms = append(ms, m(k, dI(int64(rng.Intn(900)+100))))
+			}
 		case x < 5:
 			ms = append(ms, m(k, randHash(rng, 0, globals)))
 		case x < 8:
@@ -838,6 +956,8 @@ func randPkg(rng *lib.Rng, level, maxDepth int, visible []string, globals []stri
 				tgt = vis[rng.Intn(len(vis))]
 			}
 			switch rng.Intn(6) {
+			case 3:
+				ms = append(ms, m(k, dF(nil, body{kind: 'K', name: tgt})))
 			case 0:
 				ms = append(ms, m(k, dF([]string{"v"}, body{kind: 'S', name: tgt})))
 			case 1:
@@ -845,7 +965,19 @@ func randPkg(rng *lib.Rng, level, maxDepth int, visible []string, globals []stri
 			case 4:
 				ms = append(ms, m(k, dF([]string{"v"}, body{kind: 'W', path: []string{tgt, pick(rng)}})))
 			case 5:
-				ms = append(ms, m(k, dF(nil, body{kind: 'C', path: []string{tgt, pick(rng)}})))
+				last := pick(rng)
+				var ps []string
+				var cargs []int64
+				if rng.Intn(2) == 0 {
+					ps, cargs = []string{"v"}, []int64{int64(rng.Intn(50) + 600)}
+				}
+				if rng.Intn(2) == 0 && !seen[last] {
+					// the facade carries the name of the member it calls
+					delete(seen, k)
+					k = last
+					seen[k] = true
+				}
+				ms = append(ms, m(k, dF(ps, body{kind: 'C', path: []string{tgt, last}, cargs: cargs})))
 			default:
 				ms = append(ms, m(k, dF(nil, body{kind: 'G', name: tgt})))
 			}
@@ -993,6 +1125,7 @@ func randomWorlds(out *lib.Out, rng *lib.Rng, n, maxDepth int) {
 		}
 		nops := 2 + rng.Intn(5)
 		var ops []op
+		usedWrapper := map[string]bool{}
 		for k := 0; k < nops; k++ {
 			p := randPath(rng, w)
 			d := lookupDecl(w, p)
@@ -1003,13 +1136,31 @@ func randomWorlds(out *lib.Out, rng *lib.Rng, n, maxDepth int) {
 					args = append(args, int64(rng.Intn(50)+5000))
 				}
 				if len(memberNames) > 0 && rng.Intn(3) == 0 {
-					ops = append(ops, op{kind: 'v', route: "call-via", path: p, args: args,
-						param: memberNames[rng.Intn(len(memberNames))], argsym: w.defs[rng.Intn(len(w.defs))].name})
+					o := op{kind: 'v', route: "call-via", path: p, args: args,
+						param: memberNames[rng.Intn(len(memberNames))], argsym: w.defs[rng.Intn(len(w.defs))].name}
+					last := p[len(p)-1]
+					free := !usedWrapper[last]
+					for _, g := range w.defs {
+						if g.name == last {
+							free = false
+						}
+					}
+					if len(args) == 1 && free && rng.Intn(3) != 0 {
+						// the calling function carries the member's own name (tail call, arity fits)
+						o.wname, o.route = last, "call-via-samename"
+						usedWrapper[last] = true
+					}
+					ops = append(ops, o)
 				} else {
 					ops = append(ops, op{kind: 'c', route: "call", path: p, args: args})
 				}
 			case x < 3:
 				ops = append(ops, op{kind: 's', route: setRoutes[rng.Intn(len(setRoutes))], path: p, z: int64(rng.Intn(50) + 7000)})
+				ops = append(ops, op{kind: 'g', route: "let", path: p})
+			case x == 3 || x == 4:
+				// the right-hand side is a dot path as well
+				q := randPath(rng, w)
+				ops = append(ops, op{kind: 'f', route: fromRoutes[rng.Intn(len(fromRoutes))], path: p, src2: q})
 				ops = append(ops, op{kind: 'g', route: "let", path: p})
 			default:
 				ops = append(ops, op{kind: 'g', route: getRoutes[rng.Intn(len(getRoutes))], path: p})
@@ -1034,7 +1185,7 @@ func main() {
 		out.Close(a.Stats)
 		return
 	}
-	depth, nrand, frac, frac2 := 3, 800, 24, 3
+	depth, nrand, frac, frac2 := 3, 800, 30, 4
 	if a.Tier == "thorough" {
 		depth, nrand, frac, frac2 = 4, 20000, 16, 1
 	}
@@ -1047,6 +1198,8 @@ func main() {
 	systematic(out, depth-1, rng, frac2, false, true)
 	systematic(out, depth, rng, frac, false, true)
 	fmt.Fprintln(os.Stderr, "systematic sets", time.Since(t0))
+	assignFrom(out, rng, a.Tier == "thorough")
+	fmt.Fprintln(os.Stderr, "assign-from", time.Since(t0))
 	collisions(out, rng, a.Tier == "thorough")
 	fmt.Fprintln(os.Stderr, "collisions", time.Since(t0))
 	randomWorlds(out, rng, nrand, depth)
